@@ -37,6 +37,7 @@ SHIMS = [
     'cirq_google.api.v2.sweeps',
     'cirq_google.api.v1.params',
     'cirq_google.ops.internal_gate',
+    'cirq_google.devices.grid_device',
     'cirq.circuits.circuit_operation',
     'cirq.ops.eigen_gate',
     'cirq.ops.common_gates',
@@ -66,6 +67,9 @@ def worker_setup():
     if SNum not in A.FLOAT_TYPES:
         A.FLOAT_TYPES = tuple(A.FLOAT_TYPES) + (SNum, SInt)
     stubs.append('cirq_google.serialization.arg_func_langs.FLOAT_TYPES extended by the symbolic real / integer classes (a symbolic real stands for the float, a symbolic integer for the int the caller would pass)')
+    from symx import tunits_model
+
+    stubs.extend(tunits_model.install(['cirq_google.api.v2.sweeps']))
     from cirq.circuits import circuit_operation as CO
 
     if SInt not in CO.INT_CLASSES:
@@ -258,9 +262,12 @@ def obligations(tier):
         # force a semantic (not just structural) comparison as well
         k2 = Cmp(cx, TOL, expr_tol=1e-5)
         names = sorted(s.name for s in e.free_symbols)
-        from oracles.qe_format import sym_eval
+        from oracles.qe_format import Unsupported, sym_eval
 
-        k2.exprs.append((sym_eval(back, k.symval), sym_eval(e, k.symval), name))
+        try:
+            k2.exprs.append((sym_eval(back, k.symval), sym_eval(e, k.symval), name))
+        except Unsupported as ex:
+            k.fail(f'{name}: returned formula {back!r} cannot be evaluated ({ex})')
         k.finish(f'formula {name}')
         k2.finish(f'formula value {name}')
 
@@ -336,13 +343,14 @@ def obligations(tier):
 
     def body_cond_bitmask_big(cx, wrong=False):
         # known weakness: target_value / bitmask travel through a float32 field
-        target = sym_int(cx, 'target', 0, 1 << 31)
-        mask = sym_int(cx, 'bitmask', 0, 1 << 31)
+        # failing family: odd integers in (2**24, 2**25) (float32 spacing there is 2: none of them is representable)
+        target = sym_int(cx, 'target', 0, F32_INT)
+        mask = F32_INT + 2 * sym_int(cx, 'j', 0, (1 << 23) - 1) + 1
         cond = cirq.BitMaskKeyCondition(cirq.MeasurementKey('m'), index=-1, target_value=target, equal_target=True, bitmask=mask)
         back = A.condition_from_proto(wire(cx, A.condition_to_proto(cond, out=v2.program_pb2.Arg())))
         k = Cmp(cx, TOL)
         if wrong:
-            k.cond(back.bitmask == mask + 1, 'twin')
+            k.cond(back.bitmask == mask + 5, 'twin')
         else:
             k.condition(back, cond, 'BitMaskKeyCondition')
         k.finish('BitMaskKeyCondition with masks beyond 24 bits')
@@ -352,8 +360,8 @@ def obligations(tier):
             'msgs.finding.bitmask_beyond_24_bits',
             body_cond_bitmask_big,
             twin=lambda cx: body_cond_bitmask_big(cx, wrong=True),
-            points=[{'target': 1, 'bitmask': 3}],
-            desc='BitMaskKeyCondition with target_value / bitmask up to 2**31: the integers are written with arg_to_proto into a FLOAT32 field, so masks over more than 24 measured bits are rounded (finding)',
+            points=[],
+            desc='BitMaskKeyCondition with bitmask = 2**24 + 2j + 1 (SYMBOLIC j, every odd 25-bit mask): the integers are written with arg_to_proto into a FLOAT32 field, so masks over more than 24 measured bits are rounded (finding)',
         )
     )
 
@@ -714,6 +722,71 @@ def obligations(tier):
         )
     )
 
+    # ---- sweeps of quantities with units ------------------------------------------------------------------------------
+    import tunits
+
+    # SI conversion factors written here from the definitions of the prefixes (NOT taken from tunits)
+    UNIT_MENU = [('ns', 'us', 1000.0), ('GHz', 'MHz', 1e-3), ('mV', 'V', 1000.0), ('us', 'us', 1.0)]
+
+    def uval(cx, mag, uname):
+        """quantity mag * unit: real tunits value in concrete mode, the harness model of tunits.Value in symbolic mode"""
+        unit = getattr(tunits, uname)
+        if cx.mode == 'concrete':
+            return mag * unit
+        from symx.tunits_model import SymValue
+
+        return SymValue(mag, unit)
+
+    UNIT_FORMS = ['linspace', 'points', 'const']
+
+    def body_units(cx, wrong=False):
+        f64 = cx.choose('use_float64', 2) == 1
+        form = UNIT_FORMS[cx.choose('form', len(UNIT_FORMS))]
+        u1, u2, factor = UNIT_MENU[cx.choose('units', len(UNIT_MENU))]  # 1 u2 = factor u1
+        a_, b_, c_ = cx.real('a', -BOX, BOX), cx.real('b', -BOX, BOX), cx.real('c', -BOX, BOX)
+        U1 = getattr(tunits, u1)
+        k = Cmp(cx, TOL * max(1.0, factor))  # magnitudes are compared in the FIRST unit: |b * factor| <= BOX * factor
+        if form == 'linspace':
+            L = 1 + cx.choose('length', LMAX)
+            sw = cirq.Linspace('t', uval(cx, a_, u1), uval(cx, b_, u2), L)
+            oracle = PA.linspace('t', a_, b_ * factor, L)
+        elif form == 'points':
+            sw = cirq.Points('t', [uval(cx, a_, u1), uval(cx, b_, u2), uval(cx, c_, u1)])
+            oracle = PA.points('t', [a_, b_ * factor, c_])
+        else:
+            sw = cirq.Points('t', [uval(cx, b_, u2)])
+            oracle = PA.points('t', [b_ * factor])
+        msg = wire(cx, SW.sweep_to_proto(sw, use_float64=f64))
+        ss = msg.single_sweep
+        # run_context.proto: Linspace.unit / Points.unit hold the unit of the numbers; ConstValue.with_unit_value the quantity
+        if form == 'linspace':
+            k.cond(ss.WhichOneof('sweep') == 'linspace' and ss.linspace.HasField('unit') and tunits.Value.from_proto(ss.linspace.unit) == U1, 'Linspace.unit is the unit of the start value')
+        elif form == 'points':
+            k.cond(ss.WhichOneof('sweep') == 'points' and ss.points.HasField('unit') and tunits.Value.from_proto(ss.points.unit) == U1, 'Points.unit is the unit of the first point')
+        else:
+            k.cond(ss.WhichOneof('sweep') == 'const_value' and ss.const_value.WhichOneof('value') == 'with_unit_value', 'const sweep with_unit_value')
+        back = SW.sweep_from_proto(msg)
+        rows = rows_of(back)
+        if k.cond(len(rows) == len(oracle[1]), f'{len(rows)} points'):
+            for i, (g, e) in enumerate(zip(rows, oracle[1])):
+                (gk, gv), (_, ev) = g[0], e[0]
+                k.cond(gk == 't', 'key')
+                # same quantity: expressed in the first unit it has the expected magnitude (a value without a unit,
+                # or in a unit of another dimension, raises here)
+                k.num(gv[U1], ev, f'point[{i}] in {u1}')
+        k.finish(f'sweep with units {form}', wrong)
+
+    obs.append(
+        Obligation(
+            'msgs.sweep.units',
+            body_units,
+            twin=lambda cx: body_units(cx, wrong=True),
+            points=[{'choose:use_float64': i % 2, 'choose:form': i % 3, 'choose:units': i % len(UNIT_MENU), 'choose:length': i % LMAX, 'a': 0.5 * i - 2, 'b': 1.25 - 0.25 * i, 'c': 0.1 * i} for i in range(12)],
+            opts={'weight': 4},
+            desc=f'Linspace / Points / single-point sweeps whose values are QUANTITIES with units (magnitudes SYMBOLIC, start and stop in different units of one dimension from {[(a, b) for a, b, _ in UNIT_MENU]}): unit sub-message names the unit of the stored numbers, and every point of the deserialized sweep is the same physical quantity as the documented point of the original (converted with SI factors written in the harness); float32 and use_float64. tunits.Value is modelled (symbolic magnitude x real unit) in symbolic mode and real in concrete mode',
+        )
+    )
+
     # ---- run contexts ----------------------------------------------------------------------------------------
     RC_FORMS = ['none', 'sweep', 'two_sweeps', 'dict', 'resolver', 'list_of_dicts', 'empty_resolver']
 
@@ -912,6 +985,9 @@ def obligations(tier):
             desc=f'CircuitSerializer.serialize / deserialize of a one-operation circuit with gate {name} ({nvar} variants), parameters {[(n, lo, hi) for n, lo, hi in params]} SYMBOLIC, on grid / line / named qubits: same moment structure, gate family, qubits, and parameters within the single-precision margin',
         )
 
+    if not quick:
+        VOCAB['PhasedXZ.all_symbolic'] = (1, [('x', -BOX, BOX), ('y', -BOX, BOX), ('z', -BOX, BOX)], (lambda p, v: cirq.PhasedXZGate(x_exponent=p['x'], z_exponent=p['y'], axis_phase_exponent=p['z'])), 1)
+        FIXED_QUBIT_KIND.add('PhasedXZ.all_symbolic')
     for name in VOCAB:
         obs.append(mk_single(name))
 
@@ -1010,6 +1086,7 @@ def obligations(tier):
         return [
             ('calibration', cirq.Circuit((cirq.X(q0) ** x).with_tags(CalibrationTag('token_7')))),
             ('physical_z', cirq.Circuit((cirq.Z(q0) ** x).with_tags(cg.PhysicalZTag()))),
+            ('z_calibration_only', cirq.Circuit((cirq.Z(q0) ** x).with_tags(CalibrationTag('zc')), cirq.Z(q1) ** x)),
             ('physical_z+calibration', cirq.Circuit((cirq.Z(q0) ** x).with_tags(cg.PhysicalZTag(), CalibrationTag('t2')))),
             ('internal_tag', cirq.Circuit((cirq.X(q0) ** x).with_tags(itag))),
             ('dynamical_decoupling', cirq.Circuit(cirq.I(q0).with_tags(DynamicalDecouplingTag('X')), (cirq.Y(q1) ** x).with_tags(DynamicalDecouplingTag('XY4')))),
@@ -1023,7 +1100,7 @@ def obligations(tier):
             ('same_tag_twice', cirq.Circuit((cirq.X(q0) ** x).with_tags(itag), (cirq.Y(q1) ** 0.5).with_tags(itag), (cirq.X(q0) ** 0.25).with_tags(CalibrationTag('k'), itag))),
         ]
 
-    N_TAGS = 13
+    N_TAGS = 14
 
     def body_tags(cx, wrong=False):
         y = cx.real('y', -BOX, BOX)
@@ -1048,7 +1125,7 @@ def obligations(tier):
     )
 
     # ---- classical controls ------------------------------------------------------------------------------------------
-    CTRL = ['key', 'key_path', 'bitmask', 'bitmask_nomask', 'sympy', 'key+bitmask', 'two_keys', 'key+sympy', 'tag_outside', 'three']
+    CTRL = ['key', 'key_path', 'bitmask', 'bitmask_nomask', 'sympy', 'key+bitmask', 'two_keys', 'key+sympy', 'three']
 
     def body_controls(cx, wrong=False):
         q0, q1, q2 = qubits_of('grid', 3)
@@ -1065,10 +1142,8 @@ def obligations(tier):
         B = cirq.BitMaskKeyCondition(km, index=i2, target_value=t, equal_target=True, bitmask=m)
         BN = cirq.BitMaskKeyCondition(kb, index=i1, target_value=t, equal_target=False, bitmask=None)
         S = cirq.SympyCondition(sympy.Symbol('m') > sympy.Symbol('b'))
-        conds = {'key': [K1], 'key_path': [KP], 'bitmask': [B], 'bitmask_nomask': [BN], 'sympy': [S], 'key+bitmask': [K1, B], 'two_keys': [K1, K2], 'key+sympy': [K2, S], 'tag_outside': [K1], 'three': [K1, BN, S]}[kind]
+        conds = {'key': [K1], 'key_path': [KP], 'bitmask': [B], 'bitmask_nomask': [BN], 'sympy': [S], 'key+bitmask': [K1, B], 'two_keys': [K1, K2], 'key+sympy': [K2, S], 'three': [K1, BN, S]}[kind]
         op = (cirq.X(q2) ** x).with_classical_controls(*conds)
-        if kind == 'tag_outside':
-            op = op.with_tags(CalibrationTag('ctl'))
         c = cirq.Circuit(cirq.measure(q0, key='m'), cirq.measure(q1, key='b'), op)
         back = roundtrip(cx, c)
         k = Cmp(cx, TOL)
@@ -1082,7 +1157,7 @@ def obligations(tier):
             twin=lambda cx: body_controls(cx, wrong=True),
             points=[{'choose:controls': i % len(CTRL), 'x': 0.4 * i - 1.5, 'i1': [-1, 0, 2, -3][i % 4], 'i2': [0, -1, -2, 5][i % 4], 'target': i, 'bitmask': 3 * i} for i in range(len(CTRL))],
             opts={'weight': 4},
-            desc=f'classically controlled operations ({CTRL}): KeyCondition with SYMBOLIC int32 index (also on a key with a path), BitMaskKeyCondition with SYMBOLIC index / target / bitmask, SympyCondition, one to three controls, tag outside the control wrapper; the controls are compared as a SET, field by field; gate exponent SYMBOLIC',
+            desc=f'classically controlled operations ({CTRL}): KeyCondition with SYMBOLIC int32 index (also on a key with a path), BitMaskKeyCondition with SYMBOLIC index / target / bitmask, SympyCondition, one to three controls; the controls are compared as a SET, field by field; gate exponent SYMBOLIC',
         )
     )
 
@@ -1154,24 +1229,29 @@ def obligations(tier):
         )
 
     # ---- shared constants -------------------------------------------------------------------------------------------------
-    SHARE = ['same_qubit_3', 'two_qubits', 'tag_vs_no_tag', 'moments_repeat', 'near_equal_gates', 'mixed_families']
+    SHARE = ['same_qubit_3', 'two_qubits', 'tag_vs_no_tag', 'moments_repeat', 'near_equal_gates', 'phased_pair', 'mixed_families', 'fsim_pair']
 
     def body_sharing(cx, kind, wrong=False):
-        q0, q1, q2 = qubits_of(QUBIT_KINDS[cx.choose('qubits', 2)], 3)
+        q0, q1, q2 = qubits_of(QUBIT_KINDS[cx.choose('qubits', 1 if quick else 2)], 3)
         x1, x2, x3 = cx.real('x1', -BOX, BOX), cx.real('x2', -BOX, BOX), cx.real('x3', -BOX, BOX)
         if kind == 'same_qubit_3':
             c = cirq.Circuit(cirq.X(q0) ** x1, cirq.X(q0) ** x2, cirq.X(q0) ** x3)
         elif kind == 'two_qubits':
             c = cirq.Circuit(cirq.Moment(cirq.X(q0) ** x1, cirq.X(q1) ** x2), cirq.Moment(cirq.X(q1) ** x1, cirq.X(q0) ** x3))
         elif kind == 'tag_vs_no_tag':
-            c = cirq.Circuit(cirq.Z(q0) ** x1, (cirq.Z(q0) ** x2).with_tags(cg.PhysicalZTag()), (cirq.Z(q0) ** x3).with_tags(CalibrationTag('t')))
+            # tagged before untagged and untagged before tagged, with exponents that may coincide
+            c = cirq.Circuit((cirq.Z(q0) ** x1).with_tags(cg.PhysicalZTag()), cirq.Z(q0) ** x2, (cirq.Z(q0) ** x3).with_tags(CalibrationTag('t')), cirq.Z(q0) ** x1)
         elif kind == 'moments_repeat':
             c = cirq.Circuit(cirq.Moment(cirq.X(q0) ** x1, cirq.Y(q1) ** x2), cirq.Moment(cirq.X(q0) ** x3, cirq.Y(q1) ** x2), cirq.Moment(cirq.X(q0) ** x1, cirq.Y(q1) ** x2))
         elif kind == 'near_equal_gates':
-            # same exponent in different gate families / with a global shift: must stay different operations
-            c = cirq.Circuit(cirq.X(q0) ** x1, cirq.Y(q0) ** x1, cirq.XPowGate(exponent=x1, global_shift=-0.5)(q0), cirq.X(q1) ** x1, cirq.PhasedXPowGate(exponent=x1, phase_exponent=x2)(q0), cirq.PhasedXPowGate(exponent=x2, phase_exponent=x1)(q0))
+            # same exponent in different gate families / with a global shift / on another qubit: must stay different operations
+            c = cirq.Circuit(cirq.X(q0) ** x1, cirq.Y(q0) ** x1, cirq.XPowGate(exponent=x1, global_shift=-0.5)(q0), cirq.X(q1) ** x1)
+        elif kind == 'phased_pair':
+            c = cirq.Circuit(cirq.PhasedXPowGate(exponent=x1, phase_exponent=x2)(q0), cirq.PhasedXPowGate(exponent=x2, phase_exponent=x1)(q0))
+        elif kind == 'mixed_families':
+            c = cirq.Circuit(cirq.CZ(q0, q1) ** x1, cirq.CZ(q1, q0) ** x1, cirq.ISWAP(q0, q1) ** x1, cirq.CZ(q1, q2) ** x3)
         else:
-            c = cirq.Circuit(cirq.CZ(q0, q1) ** x1, cirq.CZ(q1, q0) ** x1, cirq.ISWAP(q0, q1) ** x1, cirq.FSimGate(x1, x2)(q0, q1), cirq.FSimGate(x2, x1)(q0, q1), cirq.CZ(q1, q2) ** x3)
+            c = cirq.Circuit(cirq.FSimGate(x1, x2)(q0, q1), cirq.FSimGate(x2, x1)(q0, q1))
         msg = SER.serialize(c)
         back = SER.deserialize(wire(cx, msg))
         k = Cmp(cx, TOL)
@@ -1184,7 +1264,7 @@ def obligations(tier):
                 f'msgs.circuit.shared_constants[{kind}]',
                 (lambda cx, kind=kind: body_sharing(cx, kind)),
                 twin=(lambda cx, kind=kind: body_sharing(cx, kind, wrong=True)),
-                points=[{'choose:qubits': i % 2, 'x1': v1, 'x2': v2, 'x3': v3} for i, (v1, v2, v3) in enumerate(((0.5, 0.5, 0.5), (0.5, 0.25, 0.5), (1.0, 1.0, 2.0), (0.1, 0.1, 0.3), (0.5, 0.5000001, 0.5), (0.0, 0.0, 0.0), (-1.0, 1.0, -1.0), (2.0, 0.0, 2.0), (0.25, 0.25, 0.5)))],
+                points=[{'choose:qubits': (i % 2) if not quick else 0, 'x1': v1, 'x2': v2, 'x3': v3} for i, (v1, v2, v3) in enumerate(((0.5, 0.5, 0.5), (0.5, 0.25, 0.5), (1.0, 1.0, 2.0), (0.1, 0.1, 0.3), (0.5, 0.5000001, 0.5), (0.0, 0.0, 0.0), (-1.0, 1.0, -1.0), (2.0, 0.0, 2.0), (0.25, 0.25, 0.5)))],
                 opts={'weight': 8, 'max_paths': 60000},
                 desc=f'circuit layout {kind} (of {SHARE}): 3-6 operations with SYMBOLIC exponents x1, x2, x3 that may coincide (the solver explores x1=x2, x1=x3, ... also modulo the gate period, as the constant-table lookups compare operations): operations that are equal share one constant, operations that differ in exponent, gate family, qubit order, tags or global shift do not; every operation comes back at its own place with its own exponent (per-operation comparison with the original, exponents modulo the period of the gate)',
             )
@@ -1222,25 +1302,28 @@ def obligations(tier):
     def body_function(cx, form, wrong=False):
         q0, q1, _ = qubits_of('grid', 3)
         v1, v2 = cx.real('v1', -BOX, BOX), cx.real('v2', -BOX, BOX)
-        w = cx.real('w', -BOX, BOX)
-        n = cx.int('n', -int(BOX), int(BOX))
+        w, n = 0.5, 3  # the second parameter takes concrete values (a real and an int)
 
         def fn_circuit(theta):
             return cirq.Circuit(cirq.X(q0) ** theta, cirq.CZ(q0, q1))
 
         def fn_map(theta, other):
-            return {'main': cirq.Circuit(cirq.X(q0) ** theta), 'aux': cirq.Circuit(cirq.Y(q1) ** other, cirq.X(q0) ** theta)}
+            return {'main': cirq.Circuit(cirq.X(q0) ** theta, cirq.CZ(q0, q1)), 'aux': cirq.Circuit(cirq.Y(q1) ** other, cirq.CZ(q0, q1))}
 
         def fn_kw(**kw):
             return cirq.Circuit(cirq.Z(q0) ** kw['theta'], cirq.Y(q1) ** kw['other'])
 
-        sweep = cirq.Zip(cirq.Points('theta', [v1, v2]), cirq.Points('other', [w, n]))
+        if form == 1:
+            # every returned key repeats the point's args (each float32 read forks): one sweep point for the mapping form
+            sweep = cirq.Zip(cirq.Points('theta', [v1]), cirq.Points('other', [w]))
+        else:
+            sweep = cirq.Zip(cirq.Points('theta', [v1, v2]), cirq.Points('other', [w, n]))
         fn = [fn_circuit, fn_map, fn_kw][form]
         msg = wire(cx, SER.serialize_circuit_function(fn, sweep))
         out = SER.deserialize_multi_program(msg)
         # documented: the function is unrolled for each combination of sweep parameters; args hold the parameters
         want = []
-        for theta, other in ((v1, w), (v2, n)):
+        for theta, other in (((v1, w),) if form == 1 else ((v1, w), (v2, n))):
             if form == 0:
                 want.append(('', theta, other, fn_circuit(theta)))
             elif form == 1:
@@ -1265,11 +1348,148 @@ def obligations(tier):
                 f'msgs.circuit.function[{fname}]',
                 (lambda cx, form=form: body_function(cx, form)),
                 twin=(lambda cx, form=form: body_function(cx, form, wrong=True)),
-                points=[{'v1': 0.25 * i, 'v2': 1.0 - 0.5 * i, 'w': 0.1 * i - 0.3, 'n': i - 2} for i in range(5)],
+                points=[{'v1': 0.25 * i, 'v2': 1.0 - 0.5 * i} for i in range(5)],
                 opts={'weight': 6},
-                desc=f'serialize_circuit_function (function returning a {fname}) over a two-point sweep of two parameters with SYMBOLIC values (reals and an integer in [-4,4]): one keyed circuit per sweep point and returned key, args = the point\'s parameters, circuit = the function\'s result with SYMBOLIC exponents',
+                desc=f'serialize_circuit_function (function returning a {fname}) over a two-point sweep of two parameters (theta: SYMBOLIC reals, other: 0.5 and the int 3): one keyed circuit per sweep point and returned key, args = the point\'s parameters, circuit = the function\'s result with SYMBOLIC exponents',
             )
         )
+
+    # ==================================================================================================
+    # 4. device specifications
+    # ==================================================================================================
+    from cirq_google.api.v2 import device_pb2
+
+    # what each GateSpecification kind stands for (device.proto / GridDevice documentation): representative operations
+    def probes_for(qa, qb):
+        return {
+            'syc': [cg.SYC(qa, qb)],
+            'sqrt_iswap': [cirq.SQRT_ISWAP(qa, qb)],
+            'cz': [cirq.CZ(qa, qb)],
+            'phased_xz': [cirq.X(qa) ** 0.3, cirq.PhasedXZGate(x_exponent=0.1, z_exponent=0.2, axis_phase_exponent=0.3)(qb), cirq.PhasedXPowGate(phase_exponent=0.2)(qa) ** 0.5],
+            'virtual_zpow': [cirq.Z(qa) ** 0.3],
+            'physical_zpow': [(cirq.Z(qb) ** 0.3).with_tags(cg.PhysicalZTag())],
+            'meas': [cirq.measure(qa, qb, key='m'), cirq.measure(qb, key='k')],
+            'wait': [cirq.wait(qa, nanos=5)],
+        }
+
+    GATE_KINDS = ['syc', 'sqrt_iswap', 'cz', 'phased_xz', 'virtual_zpow', 'physical_zpow', 'meas', 'wait']
+    TWO_QUBIT_KINDS = {'syc', 'sqrt_iswap', 'cz'}
+    GATE_SUBSETS = [
+        ['syc', 'phased_xz', 'virtual_zpow', 'meas'],
+        ['sqrt_iswap', 'cz', 'phased_xz', 'physical_zpow', 'meas', 'wait'],
+        ['cz'],
+        ['phased_xz', 'virtual_zpow', 'physical_zpow'],
+        list(GATE_KINDS),
+        [],
+    ]
+    # (valid qubits (row, col), valid pairs)
+    LAYOUTS = [
+        ([(0, 0), (0, 1), (1, 0), (1, 1)], [((0, 0), (0, 1)), ((0, 0), (1, 0)), ((1, 0), (1, 1))]),
+        ([(3, 4), (3, 5), (4, 4)], [((3, 4), (3, 5))]),
+        ([(2, 2), (2, 3), (7, 7)], []),
+    ]
+
+    def body_device(cx, wrong=False):
+        qs, pairs = LAYOUTS[cx.choose('layout', len(LAYOUTS))]
+        kinds = GATE_SUBSETS[cx.choose('gates', len(GATE_SUBSETS))]
+        with_attrs = cx.choose('qubit_attributes', 2) == 1
+        spec = device_pb2.DeviceSpecification()
+        spec.valid_qubits.extend(f'{r}_{c}' for r, c in qs)
+        ts = spec.valid_targets.add()
+        ts.name = '2_qubit_targets'
+        ts.target_ordering = device_pb2.TargetSet.SYMMETRIC
+        for (r0, c0), (r1, c1) in pairs:
+            ts.targets.add().ids.extend([f'{r0}_{c0}', f'{r1}_{c1}'])
+        dur = {}
+        for gk in kinds:
+            gs = spec.valid_gates.add()
+            getattr(gs, gk).SetInParent()
+            dur[gk] = sym_int(cx, f'picos_{gk}', 0, 1 << 40)
+            gs.gate_duration_picos = dur[gk]
+        freq = cx.real('freq', -BOX, BOX)
+        aidx = cx.int('attr_int', -(1 << 40), 1 << 40)
+        if with_attrs:
+            at = spec.qubit_attributes[f'{qs[0][0]}_{qs[0][1]}'].attributes
+            at['freq'].double_value = freq
+            at['index'].int_value = aidx
+            at['good'].bool_value = True
+            at['label'].string_value = 'edge'
+        spec = wire(cx, spec)
+        dev = cg.GridDevice.from_proto(spec)
+        k = Cmp(cx, TOL)
+        Q = {cirq.GridQubit(r, c) for r, c in qs}
+        P = {frozenset((cirq.GridQubit(*a_), cirq.GridQubit(*b_))) for a_, b_ in pairs}
+        # (1) metadata
+        k.cond(set(dev.metadata.qubit_set) == Q, f'qubit_set {set(dev.metadata.qubit_set)}')
+        k.cond(set(dev.metadata.qubit_pairs) == P, f'qubit_pairs {set(dev.metadata.qubit_pairs)}')
+        gd = dev.metadata.gate_durations or {}
+        for gk in kinds:
+            for op in probes_for(cirq.GridQubit(*qs[0]), cirq.GridQubit(*qs[1]))[gk]:
+                fams = [f for f in gd if op in f]
+                if k.cond(len(fams) >= 1, f'no gate duration entry accepts {op!r}'):
+                    for f in fams:
+                        k.cond(gd[f].total_picos() == (dur[gk] + 1 if wrong else dur[gk]), f'duration of {gk}')
+        # (2) the device validates exactly what the specification lists
+        qv = [cirq.GridQubit(r, c) for r, c in qs]
+        outside = cirq.GridQubit(9, 9)
+        placements = []
+        if pairs:
+            (a_, b_) = pairs[0]
+            placements.append((cirq.GridQubit(*a_), cirq.GridQubit(*b_), True, True))
+            placements.append((cirq.GridQubit(*b_), cirq.GridQubit(*a_), True, True))  # SYMMETRIC: either order
+        unl = [(x_, y_) for x_ in qv for y_ in qv if x_ != y_ and frozenset((x_, y_)) not in P]
+        if unl:
+            placements.append((unl[0][0], unl[0][1], True, False))
+        placements.append((qv[0], outside, False, False))
+        for qa, qb, both_valid, pair_listed in placements:
+            for gk, ops_ in probes_for(qa, qb).items():
+                for op in ops_:
+                    on_valid = all(q in Q for q in op.qubits)
+                    want = gk in kinds and on_valid and (pair_listed or gk not in TWO_QUBIT_KINDS)
+                    try:
+                        dev.validate_operation(op)
+                        ok = True
+                    except ValueError:
+                        ok = False
+                    k.cond(ok == want, f'validate_operation({op!r}) {"accepts" if ok else "rejects"}; specification lists gates {kinds}, qubits {qs}, pairs {pairs}')
+        # (3) back to a specification
+        spec2 = wire(cx, dev.to_proto())
+        k.cond(sorted(spec2.valid_qubits) == sorted(f'{r}_{c}' for r, c in qs), f'to_proto valid_qubits {list(spec2.valid_qubits)}')
+        got_pairs = {frozenset(t.ids) for tset in spec2.valid_targets if tset.target_ordering == device_pb2.TargetSet.SYMMETRIC for t in tset.targets if len(t.ids) == 2}
+        k.cond(got_pairs == {frozenset((f'{a_[0]}_{a_[1]}', f'{b_[0]}_{b_[1]}')) for a_, b_ in pairs}, f'to_proto pairs {got_pairs}')
+        k.cond(sorted(g.WhichOneof('gate') for g in spec2.valid_gates) == sorted(kinds), f'to_proto gates {[g.WhichOneof("gate") for g in spec2.valid_gates]}')
+        for g in spec2.valid_gates:
+            if g.WhichOneof('gate') in dur:
+                k.cond(g.gate_duration_picos == dur[g.WhichOneof('gate')], f'to_proto duration of {g.WhichOneof("gate")}')
+        if with_attrs:
+            qid = f'{qs[0][0]}_{qs[0][1]}'
+            if k.cond(sorted(spec2.qubit_attributes) == [qid] and sorted(spec2.qubit_attributes[qid].attributes) == ['freq', 'good', 'index', 'label'], 'to_proto qubit_attributes keys'):
+                at2 = spec2.qubit_attributes[qid].attributes
+                k.num(at2['freq'].double_value, freq, 'attribute freq')
+                k.cond(at2['index'].int_value == aidx, 'attribute index')
+                k.cond(at2['good'].bool_value is True or IFF(at2['good'].bool_value, True), 'attribute good')
+                k.cond(at2['label'].string_value == 'edge', 'attribute label')
+            da = dict(dev.qubit_attributes).get(cirq.GridQubit(*qs[0]), {})
+            if k.cond(sorted(da) == ['freq', 'good', 'index', 'label'], f'device qubit_attributes {sorted(da)}'):
+                k.num(da['freq'], freq, 'device attribute freq')
+                k.cond(da['index'] == aidx, 'device attribute index')
+                k.cond(da['label'] == 'edge', 'device attribute label')
+        else:
+            k.cond(len(spec2.qubit_attributes) == 0, 'to_proto qubit_attributes empty')
+        if wrong and not kinds:
+            k.cond(len(spec2.valid_qubits) == 99, 'twin')
+        k.finish('device specification')
+
+    obs.append(
+        Obligation(
+            'msgs.device.specification',
+            body_device,
+            twin=lambda cx: body_device(cx, wrong=True),
+            points=[dict({'choose:layout': i % len(LAYOUTS), 'choose:gates': i % len(GATE_SUBSETS), 'choose:qubit_attributes': i % 2, 'freq': 0.5 * i - 1, 'attr_int': 7 - 3 * i}, **{f'picos_{g}': 1000 * (j + 1) + i for j, g in enumerate(GATE_KINDS)}) for i in range(6)],
+            opts={'weight': 4},
+            desc=f'GridDevice.from_proto on DeviceSpecification messages (qubit / pair layouts {len(LAYOUTS)}, gate lists {GATE_SUBSETS}, gate_duration_picos SYMBOLIC int64 per gate, qubit attributes with a SYMBOLIC double and a SYMBOLIC int64): metadata qubit set, pair set and gate durations are the listed ones; validate_operation accepts a probe operation (representatives of every gate kind on listed / reversed / unlisted pairs and on a qubit outside the device) EXACTLY when its gate kind, qubits and pair are listed; to_proto gives back the same qubits, pairs, gate kinds, durations and attributes. Solver-driven bounded exploration plus symbolic durations / attributes',
+        )
+    )
 
     # ==================================================================================================
     # findings (defects of the unchanged tree; one obligation per finding, restricted to the failing family)
@@ -1290,6 +1510,7 @@ def obligations(tier):
             'msgs.finding.circuit_op_tags',
             body_f_cop_tags,
             twin=lambda cx: body_f_cop_tags(cx, wrong=True),
+            opts={'stop_on_violation': False},  # report every failing selector value
             points=[],
             desc='FINDING: tags attached to a CircuitOperation are dropped by CircuitSerializer.serialize (it serializes op.untagged and never writes op.tags)',
         )
@@ -1312,6 +1533,7 @@ def obligations(tier):
             'msgs.finding.measurement_confusion_map',
             body_f_confusion,
             twin=lambda cx: body_f_confusion(cx, wrong=True),
+            opts={'stop_on_violation': False},  # report every failing selector value
             points=[],
             desc='FINDING: the confusion_map of a MeasurementGate is silently dropped by the program format (serialize accepts the gate, the deserialized gate has no confusion map)',
         )
@@ -1333,22 +1555,24 @@ def obligations(tier):
             'msgs.finding.measurement_key_path',
             body_f_key_path,
             twin=None,
+            opts={'stop_on_violation': False},  # report every failing selector value
             points=[],
             desc='FINDING: a measurement whose key has a path (e.g. after unrolling a sub-circuit) is serialized as the string "path:name" and deserialize raises ValueError (Invalid key name); no twin: every path of this obligation ends in that exception',
         )
     )
 
     def body_f_int_arg(cx, wrong=False):
-        n = cx.int('n', -(1 << 40), 1 << 40)
+        # failing family: odd integers of 25 bits, both signs
+        n = (F32_INT + 2 * cx.int('j', 0, (1 << 23) - 1) + 1) * [1, -1][cx.choose('sign', 2)]
         back = A.arg_from_proto(wire(cx, A.arg_to_proto(n)), required_arg_name='n')
-        cx.check(back == (n + 1 if wrong else n), 'integer argument returned exactly')
+        cx.check(back == (n + 5 if wrong else n), 'integer argument returned exactly')
 
     obs.append(
         Obligation(
             'msgs.finding.int_arg_beyond_24_bits',
             body_f_int_arg,
             twin=lambda cx: body_f_int_arg(cx, wrong=True),
-            points=[{'n': 5}],
+            points=[],
             desc='FINDING: arg_to_proto writes a Python int into the float32 field float_value, so an integer argument with more than 24 significant bits (InternalGate / InternalTag / raw tag arguments) comes back rounded, e.g. 16777217 -> 16777216',
         )
     )
@@ -1374,6 +1598,7 @@ def obligations(tier):
             'msgs.finding.tag_order',
             body_f_tag_order,
             twin=lambda cx: body_f_tag_order(cx, wrong=True),
+            opts={'stop_on_violation': False},  # report every failing selector value
             points=[],
             desc='FINDING (equality only): PhysicalZTag / FSimViaModelTag / TwoPulseFSimTag are restored from a gate flag BEFORE the other tags, so an operation that carries one of them after another tag comes back with its tags reordered and compares unequal to the original',
         )
@@ -1396,6 +1621,7 @@ def obligations(tier):
             'msgs.finding.internal_gate_tuple_arg',
             body_f_tuple_arg,
             twin=lambda cx: body_f_tuple_arg(cx, wrong=True),
+            opts={'stop_on_violation': False},  # report every failing selector value
             points=[],
             desc='FINDING (type only): a tuple of numbers given as InternalGate argument is written as RepeatedInt64 / RepeatedDouble and comes back as a list, so the gate compares unequal to the original',
         )
@@ -1406,7 +1632,10 @@ def obligations(tier):
         c = cirq.Circuit(cg.InternalGate('G', None, 1)(q0))
         back = roundtrip(cx, c)
         g = list(back.all_operations())[0].gate
-        cx.check((g.gate_module is None) != wrong, 'InternalGate(gate_module=None) keeps gate_module None')
+        if wrong:
+            cx.check(g.gate_module == 'some.module', 'twin')
+        else:
+            cx.check(g.gate_module is None, 'InternalGate(gate_module=None) keeps gate_module None')
 
     obs.append(
         Obligation(
@@ -1422,15 +1651,62 @@ def obligations(tier):
 
 
 # --------------------------------------------------------------------------------------------------
-LEVEL = 'see checks/C16.py (merged by the owner)'
+LEVEL = (
+    'Bounded symbolic execution of the real Quantum Engine (de)serializers, SMT-decided: the protobuf messages are the objects of the pure-Python protobuf '
+    'backend, whose scalar stores are interposed harness-side so that symbolic integers, Booleans and reals (float32 fields: sound relative-error rounding model) '
+    'live INSIDE the real message classes; arg_func_langs (arguments, formulas, classical conditions, InternalGate), api.v2.sweeps / api.v1.params (sweeps, run '
+    'contexts), CircuitSerializer with op / tag (de)serializers and GridDevice.from_proto / to_proto / validate_operation run on them unmodified. Every round trip is compared with the ORIGINAL object field by field '
+    '(structure by one Boolean VC, numbers by |got - expected| <= single-precision margin, formulas by evaluating both trees at symbolic symbol values); z3 decides '
+    'for ALL values of the symbolic exponents / angles / probabilities / durations / sweep values / indices / repetition counts / bit masks in their boxes, '
+    'including the coincidences (x1 = x2, also modulo the gate period) on which the constant table merges operations. Shapes (gate family, tag set, sweep nesting, '
+    'circuit layout) come from finite menus (solver-driven bounded exploration; obligations without a symbolic quantity are labelled as such).'
+)
 
 ASSUMPTIONS = [
-    'protobuf runs with its PURE-PYTHON backend (PROTOCOL_BUFFERS_PYTHON_IMPLEMENTATION=python, checked at start: any other backend is a harness error, exit 2); '
-    'the upb/C++ backends used by default are a different implementation of the same message semantics and are exercised only by re-checking counterexamples by hand',
+    'protobuf runs with its PURE-PYTHON backend (PROTOCOL_BUFFERS_PYTHON_IMPLEMENTATION=python, checked at start: any other backend is a harness error, exit 2); the upb / C++ backends that users run by default are a different implementation of the same message semantics: they are exercised by nothing here (counterexamples were re-checked by hand under upb before being reported)',
+    'scalar stores of the message classes are interposed in the symbolic workers (symx/pbsym.py, listed under stubs_installed): symbolic integers are range-checked symbolically and stored unchanged; symbolic reals are stored unchanged in double fields (exact real arithmetic, DESIGN.md section 3) and as x*(1+e), |e| <= 2**-24 with a fresh solver variable e in float32 fields (x = 0 or normal range; non-zero values below 2**-126 in magnitude and values beyond the float32 range are outside the claim), symbolic integers of magnitude <= 2**24 are stored exactly in float32 fields, rounding is monotone at 0 and 1 where constructors validate probabilities; implicit-presence clearing (value == 0) is decided by the solver; all other message machinery (oneofs, presence, repeated / map containers, MergeFrom, sub-message construction) is the unmodified pure-Python protobuf runtime',
+    'in concrete mode (validation points, replays) no interposition is active: the real type checkers run and every message additionally passes through SerializeToString / FromString of the pure-Python backend; wire encoding of symbolic values is not modelled (it fails loudly)',
+    'arg_func_langs.FLOAT_TYPES and cirq.circuits.circuit_operation.INT_CLASSES (isinstance tuples evaluated at import time) are extended by the symbolic classes; module-global float / int / round / math / np of the modules in SHIMS are the symx proxies (pass symbolic values, defer to the builtin otherwise)',
+    f'symbolic real arguments range over [-{BOX}, {BOX}] (probabilities [0, 1], durations [0, {BOX}]); numbers are compared with the absolute margin {TOL:.3e} = {BOX} * 2**-24 (1 + 2**-10): a deviation below that margin is not detectable; formulas are compared at symbolic symbol values in [-2, 2] with tolerance 1e-5 (their constants pass through float32)',
+    'the oracle of every round trip is the original object: documented constructor arguments read attribute by attribute in oracles/qe_format.py (gate families with their parameters, qubits, tags in order, classical controls as a set, CircuitOperation fields, moments as sets of operations on disjoint qubits), sweeps by the lists their class documentation defines (oracles/param_algebra.py); the global_shift of Pow gates is the global phase the format may normalise; exponents of X/Y/Z/H/CZ (period 2), ISWAP (period 4) and PhasedXPow (period 2) are compared modulo the period whenever more than one operation is serialized, because cirq equality identifies them and the constant table merges equal operations (one-operation obligations compare the exponent itself); FSim angles and PhasedXPow phase exponents modulo their documented canonicalisation period',
+    'sympy formulas and Boolean conditions cannot hold solver values: their shape comes from menus, their constants are concrete; equality of the returned formula is decided at SYMBOLIC values of its symbols',
+    'tunits.Value is a C extension: in the sweep obligations with units its values are MODELLED in symbolic mode (symx/tunits_model.py: symbolic magnitude x real tunits unit; conversion factors, unit messages and dimension checks are computed by the real tunits on the concrete unit) and real in concrete mode; the expected points use SI prefix factors written in the harness; AnalogDetune* gates, WaitGateWithUnit and value_with_unit arguments are outside',
+    'device specifications: the oracle for validate_operation is the specification itself (gate kind listed, qubits listed, pair listed for two-qubit non-measurement gates), with one to three representative operations per GateSpecification kind taken from the GridDevice / device.proto documentation',
+    'z3 is trusted; cvc5 cross-check sampling as configured by the framework',
 ]
 
 BOUNDS = {
-    'outside': [],
+    'symbolic reals': f'gate exponents / angles / FSim theta, phi / phases in [-{BOX},{BOX}]; probabilities in [0,1]; durations (ns, ps) in [0,{BOX}]; sweep start / stop / points in [-{BOX},{BOX}]; InternalGate / InternalTag / raw-tag real arguments in [-{BOX},{BOX}]; symbol values for formula comparison in [-2,2]',
+    'symbolic integers': 'KeyCondition / BitMaskKeyCondition index: full int32; target_value, bitmask: [0, 2**24]; integer arguments through float32 fields: |n| <= 2**24; int64 lists and constants: |n| <= 2**40 / 2**62; DeviceParameter idx: |idx| <= 2**62 incl. 0; repetitions of run contexts: [0, 2**31-1]; CircuitOperation repetitions: [-3,3] (unitary body) / [0,3]; Linspace length 1..4 (quick) / 1..7 (thorough); FiniteRandomVariable seed int32, length positive int32',
+    'menus': {
+        'argument lists': 'ints, reals, int+real, bools, strings, mixed tuple, nested, empty list / tuple, string+int',
+        'formulas': 'a, a+b, a*b, 2*a, a-b, a**2, b/(a+3), 0.5*a+0.25, 0.1*a+1/3, a*b*c+a, (a+b)*(a-c), a**3-2*b**2, pi*a, -a',
+        'sympy conditions': 'a>b, a>=b, a<b, a<=1, a==b, a!=2, a+b>c, and / or / xor / not of relations, 2*a-b<=c*a',
+        'sweep nestings': 'product(L,P), zip(L,P), ziplongest(P,L), concat(P,L), product(zip(P,P),P), zip(product(P,P),L), concat(zip,zip), product(const,L), ziplongest(product,P), unit, product(), listsweep; metadata none / DeviceParameter / Metadata',
+        'sweepables': 'None, sweep, list of sweeps, dict, ParamResolver, list of dicts, empty resolver; one or per-sweep repetitions; use_float64 on/off',
+        'gates with symbolic parameters': 'X/Y/Z/H/CZ Pow (global shift 0 / -0.5), ISwapPow, PhasedXPow, PhasedXZ (two of three exponents symbolic), FSim, WaitGate (1-2 qubits), DepolarizingChannel (1-2 qubits), RandomGateChannel(X/Z Pow), CouplerPulse (two of six fields symbolic), InternalGate',
+        'parameter-free gates': 'I, 2-qubit identity, ResetChannel, SYC, WILLOW, MultilevelResetViaResonator, LZSResetViaResonator, LeakageISWAP, three single-qubit Cliffords, measurements with invert masks, X, CZ, FSim with FSimViaModelTag / TwoPulseFSimTag',
+        'qubits': 'GridQubit, LineQubit, NamedQubit (3 each)',
+        'tags': '13 tag configurations on operations, moments, circuits',
+        'classical controls': '10 configurations, 1-3 conditions',
+        'CircuitOperation': '11 forms incl. nesting and a shared sub-circuit constant',
+        'shared constants': '6 circuit layouts of 3-6 operations, 2 qubit kinds',
+        'multi-program / circuit function': 'sequence and mapping of 3 circuits; function returning circuit / mapping / taking **kwargs over a 2-point sweep',
+        'sweeps with units': 'Linspace / Points / const, unit pairs (ns,us) (GHz,MHz) (mV,V) (us,us)',
+        'device specifications': '3 qubit / pair layouts, 6 gate lists over syc, sqrt_iswap, cz, phased_xz, virtual_zpow, physical_zpow, meas, wait; probes on listed / reversed / unlisted pairs and an outside qubit',
+    },
+    'circuit size': '1-6 operations, 1-6 moments, 1-3 qubits',
+    'outside': [
+        'the upb / C++ protobuf backends and the wire encoding of symbolic values (concrete points and replays go through the pure-Python wire encoding only)',
+        'non-zero real arguments of magnitude below 2**-126 or beyond the float32 range; rounding of IEEE doubles (exact real model)',
+        'tunits-valued gate arguments: AnalogDetuneQubit, AnalogDetuneCouplerOnly, WaitGateWithUnit, value_with_unit arguments (sweeps with units are covered through the harness model of tunits.Value)',
+        'ndarray / bytes / complex arguments (api.v2.ndarrays numeric arrays), CustomArg function_interpolation_data of InternalGate, stimcirq operations, custom op / tag (de)serializers passed to CircuitSerializer',
+        'SingleQubitCliffordGate / CliffordTableau with symbolic tableau bits (three concrete gates only); MeasurementGate on qudits',
+        'deprecated message forms read by the deserializer only (Operation.qubits, token_value / token_constant_index, Operation.tags, Circuit.moments, Moment.operations): never produced by the serializer, not generated here',
+        'device specifications beyond the stated menus (3 layouts up to 4 qubits, 6 gate lists over 8 GateSpecification kinds): deprecated valid_gate_sets, couplers, cz_pow_gate / fsim_via_model / internal_gate / analog gate kinds, compilation target gatesets, _from_device_information; result messages beyond bit packing (see the bit-packing obligations of C16)',
+        'FiniteRandomVariable distributions with symbolic weights; the sampled values themselves (function of the compared fields)',
+        'circuits larger than the stated menus; Python-level identity / caching effects; tags or gate arguments that are unhashable (lists inside InternalGate / InternalTag in a circuit: rejected by Python hashing before serialization)',
+    ],
 }
 
 
